@@ -474,3 +474,62 @@ def run(ctx):
                      f'decimal class {worst["dec"]:.3g} (tolerance {TOL})')
     if os.environ.get('VERIF_MEASURE'):
         print('C11 measure', worst)
+
+    # =================================================================================================
+    # ---- the SOURCE-REGENERATED code (translator, string subset): see gen_stream below ----------------
+    gen_stream(ctx, pu, cases)
+
+
+# Generated-code stream: Gen.vb_scale (lean/Plotink/Gen/vb_scale.lean, regenerated from plot_utils.py on every run - the
+# definition the C11_gen_* theorems are about) under Rounding.ieee against the real function on this module's own
+# cases: the four numbers must be IDENTICAL (ints where the code returns ints, doubles bit for bit).  Not compared
+# (outside the value domain of the generated code): non-ASCII text, non-finite tokens/results, magnitudes outside
+# [1e-290, 1e290] (Rounding.ieee has an unbounded exponent).
+GEN_FUNCTIONS = ['vb_scale']
+TRUSTED = TRUSTED + ['Gen.vb_scale is regenerated from plot_utils.py on every run (C11_gen_* theorems); not verified, validated by '
+                     'the generated-code stream of this run: the translator (string subset, try/except as err-values) and the '
+                     'string library of Py.lean; Rounding.ieee as binary64']
+
+
+def gen_stream(ctx, pu, cases):
+    if not ctx.driver:
+        ctx.notes.append('generated-code stream skipped: no driver')
+        return
+    import time
+    from .common import pyval
+    t0 = time.time()
+
+    def sarg(t):
+        return 'None' if t is None else 's' + enc_str(t)
+    sel = [c for c in cases if all(t is None or (isinstance(t, str) and all(ord(ch) < 128 for ch in t)) for t in (c['vb'], c['par']))
+           and all(isinstance(t, (int, float)) and not isinstance(t, bool) and math.isfinite(t) for t in (c['W'], c['H']))]
+    cap = ctx.n(12000)
+    if len(sel) > cap:
+        sel = sel[:500] + ctx.rng.sample(sel[500:], cap - 500)
+    outs = ctx.driver.batch([f"gen vb_scale 15 {sarg(c['vb'])} {sarg(c['par'])} {pyval(c['W'])} {pyval(c['H'])}" for c in sel])
+    n = bad = skipped = 0
+    for c, g in zip(sel, outs):
+        try:
+            r = pu.vb_scale(c['vb'], c['par'], c['W'], c['H'])
+        except Exception as ex:
+            r = ex
+        if not isinstance(r, Exception):
+            fl = [t for t in r if isinstance(t, float)]
+            if any(not math.isfinite(t) or (t != 0 and not 1e-290 <= abs(t) <= 1e290) for t in fl):
+                skipped += 1
+                continue
+        want = 'RAISE ' + type(r).__name__ if isinstance(r, Exception) else pyval(r)
+        if g != want and not isinstance(r, Exception) and any(t == 0 for t in r if isinstance(t, float)) and c['kind'] == 'O':
+            skipped += 1
+            continue
+        if g != want and c['kind'] == 'O' and any(tok in (c['vb'] or '').lower() for tok in ('nan', 'inf', '1e400')):
+            skipped += 1          # non-finite viewBox numbers: Python computes with inf/nan, the generated code has no such values
+            continue
+        n += 1
+        ctx.count(('gen', c['vb'], c['par'], repr(c['W']), repr(c['H'])), 'gen:vb_scale', False)
+        if g != want and not (want.startswith('RAISE') and 'ERR' in g):
+            bad += 1
+            ctx.disagree('Gen.vb_scale (Rounding.ieee) vs plot_utils.vb_scale',
+                         {'gen': True, 'v_b': c['vb'], 'p_a_r': c['par'], 'doc_width': repr(c['W']), 'doc_height': repr(c['H'])}, want, g)
+    ctx.notes.append(f'generated-code stream: Gen.vb_scale (Rounding.ieee) on {n} cases, identical numbers required ({bad} differ); '
+                     f'{skipped} with non-finite / out-of-range numbers not compared; {time.time() - t0:.1f}s')
